@@ -26,6 +26,20 @@ Definition fstate (A : Type) := option (outcome A).      (* None = pending *)
 Definition settle {A} (f : fstate A) (o : outcome A) : fstate A :=
   match f with None => Some o | Some _ => f end.
 
+(* quiet_exceptions: a tuple of exception classes, matched with isinstance *)
+Inductive qclass := QException | QUser | QCancelled | QTimeout | QInvalid.
+Definition q_match (q : qclass) (e : exn) : bool :=
+  match q, e with
+  | QException, ECancelled => false        (* CancelledError is a BaseException, not an Exception *)
+  | QException, _ => true
+  | QUser, EUser _ => true
+  | QCancelled, ECancelled => true
+  | QTimeout, ETimeout => true
+  | QInvalid, EInvalidState => true
+  | _, _ => false
+  end.
+Definition is_quiet (qs : list qclass) (e : exn) : bool := existsb (fun q => q_match q e) qs.
+
 Definition futs := list (fstate N).
 Definition pending (ins : futs) (i : nat) : bool :=
   match nth_error ins i with Some None => true | _ => false end.
@@ -73,22 +87,23 @@ Definition result_of (ins : futs) (c : nat) : N + exn :=
   end.
 
 (* the `for f in children_futs:` loop of callback(); out = the combined future *)
-Fixpoint m_loop (ins : futs) (cs : list nat) (acc : list N) (out : fstate (list N)) (log : nat)
+Fixpoint m_loop (qs : list qclass) (ins : futs) (cs : list nat) (acc : list N) (out : fstate (list N)) (log : nat)
   : list N * fstate (list N) * nat :=
   match cs with
   | [] => (acc, out, log)
   | c :: r =>
       match result_of ins c with
-      | inl v => m_loop ins r (acc ++ [v]) out log
+      | inl v => m_loop qs ins r (acc ++ [v]) out log
       | inr e =>
           match out with
-          | Some _ => m_loop ins r acc out (S log)          (* "Multiple exceptions in yield list" *)
-          | None => m_loop ins r acc (Some (Exn e)) log     (* future_set_exc_info *)
+          | Some _ => m_loop qs ins r acc out (if is_quiet qs e then log else S log)   (* "Multiple exceptions in yield list" *)
+          | None => m_loop qs ins r acc (Some (Exn e)) log     (* future_set_exc_info *)
           end
       end
   end.
 
 Record mstate := mkM {
+  m_quiet : list qclass;        (* quiet_exceptions *)
   m_ins : futs;
   m_children : list nat;        (* children_futs, with duplicates *)
   m_unf : list nat;             (* unfinished_children (a set) *)
@@ -100,13 +115,13 @@ Record mstate := mkM {
 
 Definition m_callback (w : mstate) (f : nat) : mstate :=
   if negb (memb f (m_unf w)) then
-    mkM (m_ins w) (m_children w) (m_unf w) (m_ready w) (m_out w) (m_log w) (S (m_err w))
+    mkM (m_quiet w) (m_ins w) (m_children w) (m_unf w) (m_ready w) (m_out w) (m_log w) (S (m_err w))
   else
     match removeb f (m_unf w) with
-    | x :: u => mkM (m_ins w) (m_children w) (x :: u) (m_ready w) (m_out w) (m_log w) (m_err w)
+    | x :: u => mkM (m_quiet w) (m_ins w) (m_children w) (x :: u) (m_ready w) (m_out w) (m_log w) (m_err w)
     | [] =>
-        let '(acc, out, log) := m_loop (m_ins w) (m_children w) [] (m_out w) (m_log w) in
-        mkM (m_ins w) (m_children w) [] (m_ready w)
+        let '(acc, out, log) := m_loop (m_quiet w) (m_ins w) (m_children w) [] (m_out w) (m_log w) in
+        mkM (m_quiet w) (m_ins w) (m_children w) [] (m_ready w)
             (match out with None => Some (Res acc) | Some _ => out end) log (m_err w)
     end.
 
@@ -117,27 +132,31 @@ Fixpoint m_register (w : mstate) (todo : list nat) : mstate :=
   | c :: r => m_register (if isdone (m_ins w) c then m_callback w c else w) r
   end.
 
-Definition m_create (ins : futs) (children : list nat) : mstate :=
+Definition m_create (qs : list qclass) (ins : futs) (children : list nat) : mstate :=
   let out := match children with [] => Some (Res []) | _ => None end in
-  m_register (mkM ins children (dedup children) [] out 0 0) (dedup children).
+  m_register (mkM qs ins children (dedup children) [] out 0 0) (dedup children).
 
 Definition m_step (w : mstate) (e : event) : mstate :=
   match e with
   | Complete i o =>
       if pending (m_ins w) i then
-        mkM (set_nth (m_ins w) i (Some o)) (m_children w) (m_unf w)
+        mkM (m_quiet w) (set_nth (m_ins w) i (Some o)) (m_children w) (m_unf w)
             (if memb i (m_children w) then m_ready w ++ [i] else m_ready w)
             (m_out w) (m_log w) (m_err w)
       else w
-  | CancelOut => mkM (m_ins w) (m_children w) (m_unf w) (m_ready w) (settle (m_out w) Cancelled) (m_log w) (m_err w)
+  | CancelOut => mkM (m_quiet w) (m_ins w) (m_children w) (m_unf w) (m_ready w) (settle (m_out w) Cancelled) (m_log w) (m_err w)
   | Step =>
       match m_ready w with
       | [] => w
-      | f :: r => m_callback (mkM (m_ins w) (m_children w) (m_unf w) r (m_out w) (m_log w) (m_err w)) f
+      | f :: r => m_callback (mkM (m_quiet w) (m_ins w) (m_children w) (m_unf w) r (m_out w) (m_log w) (m_err w)) f
       end
   | TimerFire | Next => w
   end.
 Definition m_run (w : mstate) (es : list event) : mstate := fold_left m_step es w.
+
+(* the dict form: keys = list(children.keys()); the result is dict(zip(keys, result_list)) *)
+Definition dict_view (keys : list N) (o : outcome (list N)) : outcome (list (N * N)) :=
+  match o with Res l => Res (combine keys l) | Exn e => Exn e | Cancelled => Cancelled end.
 
 (* specification side: outcomes of the children, gathered in input order *)
 Fixpoint child_outs (ins : futs) (cs : list nat) : option (list (outcome N)) :=
@@ -155,6 +174,22 @@ Fixpoint gather (os : list (outcome N)) : outcome (list N) :=
   | Res v :: r => match gather r with Res l => Res (v :: l) | x => x end
   | Exn e :: _ => Exn e
   | Cancelled :: _ => Exn ECancelled
+  end.
+(* failures that are logged: every failed child after the first one, unless quiet *)
+Definition failure_of (o : outcome N) : option exn :=
+  match o with Res _ => None | Exn e => Some e | Cancelled => Some ECancelled end.
+Fixpoint loud_count (qs : list qclass) (os : list (outcome N)) : nat :=
+  match os with
+  | [] => 0
+  | o :: r => match failure_of o with
+              | Some e => (if is_quiet qs e then 0 else 1) + loud_count qs r
+              | None => loud_count qs r
+              end
+  end.
+Fixpoint extra_logged (qs : list qclass) (os : list (outcome N)) : nat :=
+  match os with
+  | [] => 0
+  | o :: r => match failure_of o with Some _ => loud_count qs r | None => extra_logged qs r end
   end.
 (* Some o once every child is done: results in input order or the first failure *)
 Definition expected (ins : futs) (cs : list nat) : option (outcome (list N)) :=
@@ -208,6 +243,7 @@ Definition tgt_ext (b : fstate N) (es : list event) : fstate N := fold_left ext_
 Inductive task := TCopy | TRemove | TTimeout | TErrCb.
 Inductive tloc := InHeap | InReady | Gone.
 Record tstate := mkT {
+  t_quiet : list qclass;        (* quiet_exceptions *)
   t_a : fstate N;               (* the wrapped future *)
   t_r : fstate N;               (* the returned future *)
   t_ready : list task;
@@ -218,7 +254,7 @@ Record tstate := mkT {
   t_err : nat
 }.
 Definition t_set_r (w : tstate) (r : fstate N) : tstate :=
-  mkT (t_a w) r (t_ready w) (t_cancelled w) (t_loc w) (t_errcb w) (t_log w) (t_err w).
+  mkT (t_quiet w) (t_a w) r (t_ready w) (t_cancelled w) (t_loc w) (t_errcb w) (t_log w) (t_err w).
 (* chain_future's copy with b = the returned future *)
 Definition t_copy (w : tstate) : tstate :=
   match t_r w with
@@ -228,27 +264,29 @@ Definition t_copy (w : tstate) : tstate :=
       | Some Cancelled => t_set_r w (Some Cancelled)
       | Some (Exn e) => t_set_r w (Some (Exn e))
       | Some (Res v) => t_set_r w (Some (Res v))
-      | None => mkT (t_a w) None (t_ready w) (t_cancelled w) (t_loc w) (t_errcb w) (t_log w) (S (t_err w))
+      | None => mkT (t_quiet w) (t_a w) None (t_ready w) (t_cancelled w) (t_loc w) (t_errcb w) (t_log w) (S (t_err w))
       end
   end.
 Definition t_remove (w : tstate) : tstate :=
-  mkT (t_a w) (t_r w) (t_ready w) true (t_loc w) (t_errcb w) (t_log w) (t_err w).
-(* error_callback: logs unless result / cancelled / CancelledError *)
+  mkT (t_quiet w) (t_a w) (t_r w) (t_ready w) true (t_loc w) (t_errcb w) (t_log w) (t_err w).
+(* error_callback: logs unless result / cancelled / CancelledError / quiet *)
 Definition t_errlog (w : tstate) : tstate :=
   match t_a w with
   | Some (Exn ECancelled) => w
-  | Some (Exn _) => mkT (t_a w) (t_r w) (t_ready w) (t_cancelled w) (t_loc w) (t_errcb w) (S (t_log w)) (t_err w)
+  | Some (Exn e) =>
+      if is_quiet (t_quiet w) e then w
+      else mkT (t_quiet w) (t_a w) (t_r w) (t_ready w) (t_cancelled w) (t_loc w) (t_errcb w) (S (t_log w)) (t_err w)
   | Some _ => w
-  | None => mkT (t_a w) (t_r w) (t_ready w) (t_cancelled w) (t_loc w) (t_errcb w) (t_log w) (S (t_err w))
+  | None => mkT (t_quiet w) (t_a w) (t_r w) (t_ready w) (t_cancelled w) (t_loc w) (t_errcb w) (t_log w) (S (t_err w))
   end.
 Definition t_timeout_cb (w : tstate) : tstate :=
   let w1 := match t_r w with None => t_set_r w (Some (Exn ETimeout)) | Some _ => w end in
   match t_a w1 with
   | Some _ => t_errlog w1
-  | None => mkT (t_a w1) (t_r w1) (t_ready w1) (t_cancelled w1) (t_loc w1) true (t_log w1) (t_err w1)
+  | None => mkT (t_quiet w1) (t_a w1) (t_r w1) (t_ready w1) (t_cancelled w1) (t_loc w1) true (t_log w1) (t_err w1)
   end.
-Definition t_create (a : fstate N) : tstate :=
-  let w := mkT a None [] false InHeap false 0 0 in
+Definition t_create (qs : list qclass) (a : fstate N) : tstate :=
+  let w := mkT qs a None [] false InHeap false 0 0 in
   match a with
   | Some _ => t_remove (t_copy w)
   | None => w
@@ -259,14 +297,14 @@ Definition t_run_task (w : tstate) (k : task) : tstate :=
   | TRemove => t_remove w
   | TErrCb => t_errlog w
   | TTimeout =>
-      let w1 := mkT (t_a w) (t_r w) (t_ready w) (t_cancelled w) Gone (t_errcb w) (t_log w) (t_err w) in
+      let w1 := mkT (t_quiet w) (t_a w) (t_r w) (t_ready w) (t_cancelled w) Gone (t_errcb w) (t_log w) (t_err w) in
       if t_cancelled w then w1 else t_timeout_cb w1
   end.
 Definition t_step (w : tstate) (e : event) : tstate :=
   match e with
   | Complete 0 o =>
       match t_a w with
-      | None => mkT (Some o) (t_r w) (t_ready w ++ [TCopy; TRemove] ++ (if t_errcb w then [TErrCb] else []))
+      | None => mkT (t_quiet w) (Some o) (t_r w) (t_ready w ++ [TCopy; TRemove] ++ (if t_errcb w then [TErrCb] else []))
                     (t_cancelled w) (t_loc w) (t_errcb w) (t_log w) (t_err w)
       | Some _ => w
       end
@@ -274,13 +312,13 @@ Definition t_step (w : tstate) (e : event) : tstate :=
   | CancelOut => t_set_r w (settle (t_r w) Cancelled)
   | TimerFire =>
       match t_loc w, t_cancelled w with
-      | InHeap, false => mkT (t_a w) (t_r w) (t_ready w ++ [TTimeout]) false InReady (t_errcb w) (t_log w) (t_err w)
+      | InHeap, false => mkT (t_quiet w) (t_a w) (t_r w) (t_ready w ++ [TTimeout]) false InReady (t_errcb w) (t_log w) (t_err w)
       | _, _ => w
       end
   | Step =>
       match t_ready w with
       | [] => w
-      | k :: r => t_run_task (mkT (t_a w) (t_r w) r (t_cancelled w) (t_loc w) (t_errcb w) (t_log w) (t_err w)) k
+      | k :: r => t_run_task (mkT (t_quiet w) (t_a w) (t_r w) r (t_cancelled w) (t_loc w) (t_errcb w) (t_log w) (t_err w)) k
       end
   | Next => w
   end.
